@@ -1185,6 +1185,9 @@ func runConcurrent(s *RunSpec) *world {
 func setActive(v bool) {
 	sActive = v
 	hook.Active = v
+	if v {
+		hook.ResetGates()
+	}
 }
 
 //go:norace
